@@ -182,10 +182,10 @@ RECURSIVE Loop(_, _)
 Loop(c, st) ==
   LET k == st.k
       D == c.D
-      out(i) == Outcome(st.sh[i], k)
-      A == {i \in st.open : out(i) = "accept"}
-      seen == \E i \in st.open : out(i) # "eof"
-      E == {i \in st.open : out(i) = "eof" /\ ProperEnd(c, st.sh[i], k)}
+      out == [i \in st.open |-> Outcome(st.sh[i], k)]
+      A == {i \in st.open : out[i] = "accept"}
+      seen == \E i \in st.open : out[i] # "eof"
+      E == {i \in st.open : out[i] = "eof" /\ ProperEnd(c, st.sh[i], k)}
       fr(i) == st.sh[i].frames[k + 1] IN
   IF Cardinality(A) < D
   THEN \* end of data or failure
@@ -270,29 +270,56 @@ Heals(c, r1) == NFaulty(c) <= c.P =>
 C17Holds(c, r1, r2) == Tolerates(c, r1, r2) /\ NeverLies(c, r1, r2) /\ Heals(c, r1)
 
 \* lemma used by the heal-scan binding: once read, further reads change nothing
-Idempotent(c, r1, r2) == r2.post = r1.post /\ Read(c, r2.post).post = r2.post
-                         /\ [Read(c, r2.post) EXCEPT !.via = {}] = [r2 EXCEPT !.via = {}]
+\* and return the same
+Idempotent(c, r1, r2) == /\ r2.post = r1.post
+                         /\ LET r3 == Read(c, r2.post) IN
+                            [r3 EXCEPT !.via = {}] = [r2 EXCEPT !.via = {}]
 
 \* ------------------------------------------------------ exhaustive checking
 \* The case space is a tree: shard after shard gets one fault option (or none).
-\* MCConfigs: set of <<D, P, max faulty shards>>; additionally every combination
-\* of early-end faults (TruncKinds) on ALL shards is explored.
+\* MCConfigs: set of <<D, P, max faulty shards, t, lens>>; if t then additionally
+\* every combination of early-end faults (TruncKinds) on ALL shards is explored;
+\* lens = "all" (Lens(D)) or "few" (one length per stripe count 0..3).
+\* Only one representative per behaviour class of fault kinds is enumerated
+\* (RepKinds); ClassLemma shows that the other kinds give shard files the reader
+\* cannot tell from their representative's.
 CONSTANT MCConfigs
 VARIABLES case, pos, lim
 vars == <<case, pos, lim>>
 
-MaxFaults(c) == CHOOSE m \in 0..10 : <<c.D, c.P, m>> \in MCConfigs
+RepKinds == {"none", "missing", "hdrbad", "truncb", "payflip", "dbflip", "appendlong", "appendshort",
+             "stale", "foreign"}
+RepOf(kd) == CASE kd = "hdrshort" -> "hdrbad"
+               [] kd = "trunch" -> "truncb"
+               [] kd \in {"truncp", "hashflip", "idxflip", "plenflip"} -> "payflip"
+               [] OTHER -> kd
+\* everything Read looks at in a shard file: the shard is consulted stripe after
+\* stripe until its first frame that is not accepted
+RECURSIVE SigFrom(_, _, _)
+SigFrom(c, sh, k) ==
+  LET o == Outcome(sh, k) IN
+  IF o = "accept" THEN <<sh.frames[k + 1]>> \o SigFrom(c, sh, k + 1)
+  ELSE << <<o, ProperEnd(c, sh, k)>> >>
+Signature(c, sh) == [open |-> sh.present /\ sh.hdr = "ok", present |-> sh.present, ver |-> sh.ver,
+                     at |-> IF sh.present /\ sh.hdr = "ok" THEN SigFrom(c, sh, 0) ELSE <<>>]
+ClassLemma(c) ==
+  \A i \in 1..N(c) : \A ft \in {x \in FaultOpts(c.D, c.L) : x.kind \notin RepKinds} :
+    Signature(c, ApplyFault(c, i, ft)) = Signature(c, ApplyFault(c, i, [ft EXCEPT !.kind = RepOf(ft.kind)]))
+
+MaxFaults(c) == CHOOSE m \in 0..10 : \E cf \in MCConfigs : cf[1] = c.D /\ cf[2] = c.P /\ cf[3] = m
+FewLens(D) == {0, 1, Cap(D) + 1, 2 * Cap(D) + 7}
 
 Init ==
-  /\ \E cf \in MCConfigs : \E L \in Lens(cf[1]) :
+  /\ \E cf \in MCConfigs : \E L \in (IF cf[5] = "all" THEN Lens(cf[1]) ELSE FewLens(cf[1])) :
        case = [D |-> cf[1], P |-> cf[2], L |-> L, LO |-> L, LF |-> L, mode |-> "read",
                faults |-> [i \in 1..(cf[1] + cf[2]) |-> NoFault]]
+       /\ lim \in {"any"} \cup (IF cf[4] THEN {"trunc"} ELSE {})
   /\ pos = 1
-  /\ lim \in {"any", "trunc"}
 
 Next ==
   /\ pos <= N(case)
   /\ \E ft \in FaultOpts(case.D, case.L) :
+       /\ ft.kind \in RepKinds
        /\ lim = "any" => (ft.kind = "none" \/ NFaulty(case) < MaxFaults(case))
        /\ lim = "trunc" => ft.kind \in TruncKinds
        /\ \E lo \in (IF ft.kind = "stale" /\ \A i \in 1..N(case) : case.faults[i].kind # "stale"
@@ -305,17 +332,32 @@ Next ==
 
 Spec == Init /\ [][Next]_vars
 
-\* design level: the intended reader satisfies the property on every case,
-\* read directly or by the heal scan
-AsScan(c) == [c EXCEPT !.mode = "scan"]
 \* bounds used by the configs (cfg files cannot write tuples)
-MCQuick == {<<2, 1, 3>>, <<2, 2, 2>>, <<3, 2, 2>>}
-MCThorough == {<<2, 1, 3>>, <<2, 2, 3>>, <<3, 2, 3>>}
+MCNone == {}
+MCQuick == {<<2, 1, 2, TRUE, "few">>, <<2, 2, 1, FALSE, "all">>, <<3, 2, 1, FALSE, "all">>}
+MCQuickCode == {<<2, 1, 1, TRUE, "all">>, <<2, 2, 1, FALSE, "few">>, <<3, 2, 1, FALSE, "few">>}
+MCThorough == {<<2, 1, 3, TRUE, "all">>, <<2, 2, 3, TRUE, "all">>, <<3, 2, 3, TRUE, "all">>}
+MCThoroughCode == {<<2, 1, 3, TRUE, "all">>, <<2, 2, 2, TRUE, "all">>, <<3, 2, 2, FALSE, "all">>}
 AllDeviations == {"D-C17-databytes-unauthenticated", "D-C17-stale-mix", "D-C17-foreign-shard",
                   "D-C17-uniform-truncation", "D-C17-trailing-data", "D-C17-heal-parity-empty"}
 
-DesignHolds == /\ ValidCase(case)
-               /\ C17Holds(case, R1(case), R2(case))
-               /\ C17Holds(AsScan(case), R1(AsScan(case)), R2(AsScan(case)))
-ReadsIdempotent == Idempotent(case, R1(case), R2(case))
+AsScan(c) == [c EXCEPT !.mode = "scan"]
+AllMissing(c) == \A i \in 1..N(c) : c.faults[i].kind = "missing"
+\* a node of the tree whose case was not already checked at its parent
+NewCase == pos = 1 \/ case.faults[pos - 1].kind # "none"
+
+CheckOn(c, prop) ==
+  LET r1 == Read(c, Shards(c))
+      r2 == Read(c, r1.post) IN
+  /\ prop => C17Holds(c, r1, r2)
+  /\ Idempotent(c, r1, r2)
+  /\ (prop /\ AllMissing(c)) =>                        \* the only case the heal scan does not read
+        LET s1 == R1(AsScan(c)) IN C17Holds(AsScan(c), s1, Read(c, s1.post))
+
+\* design level (Deviations = {}): the intended reader satisfies the property on
+\* every case, read directly or by the heal scan; and reads are idempotent
+DesignHolds == NewCase => ValidCase(case) /\ CheckOn(case, TRUE)
+\* code level (all deviations): only the idempotence lemma
+CodeIdempotent == NewCase => CheckOn(case, FALSE)
+ClassLemmaHolds == pos = 1 => ClassLemma(case)
 =============================================================================
